@@ -283,8 +283,10 @@ func bucket(c uint64) string {
 	}
 }
 
-// one-header requests through the wire encoding, one honest server
-func runOne(t *testing.T, w *emit.Writer, reg *vhdr.Registry, chain []H, avail uint64, rng *emit.Rand) {
+// one-header requests through the wire encoding: Head against one honest server; Get and GetByHeight
+// against 1-3 trusted servers with different heads, for a header that (at least) the longest one holds;
+// slow[i] delays server i's answer (virtual time), so that e.g. a lagging server's NOT_FOUND arrives first
+func runOne(t *testing.T, w *emit.Writer, reg *vhdr.Registry, chain []H, avails []uint64, slow []time.Duration, rng *emit.Rand) {
 	type res struct {
 		kind   string
 		served H
@@ -293,23 +295,53 @@ func runOne(t *testing.T, w *emit.Writer, reg *vhdr.Registry, chain []H, avail u
 		log    []sess.Event
 	}
 	var out []res
+	top := uint64(0)
+	for _, a := range avails {
+		top = max(top, a)
+	}
 	synctest.Test(t, func(t *testing.T) {
-		wd := sess.NewWorld(t, 1, 4, reqTO, "a", synctest.Wait)
-		b := startBackend(t, wd, 0, chain, avail)
-		wd.Proxy(0, wd.Backends[0], sess.ProxyHooks{})
-		synctest.Wait()
-		ctx, cancel := context.WithTimeout(context.Background(), time.Minute)
-		defer cancel()
-		h, err := wd.Ex.Head(ctx)
-		out = append(out, res{"head", chain[avail-1], h, err, wd.TakeLog()})
-		for k := 0; k < 4; k++ {
-			x := chain[rng.Intn(int(avail))]
-			h, err = wd.Ex.GetByHeight(ctx, x.H)
-			out = append(out, res{"getbyheight", x, h, err, wd.TakeLog()})
-			h, err = wd.Ex.Get(ctx, x.Hash())
-			out = append(out, res{"get", x, h, err, wd.TakeLog()})
+		wd := sess.NewWorld(t, len(avails), 4, reqTO, "a", synctest.Wait)
+		var bs []*backend
+		for i, a := range avails {
+			bs = append(bs, startBackend(t, wd, i, chain, a))
+			d := slow[i]
+			wd.Proxy(i, wd.Backends[i], sess.ProxyHooks{Before: func(int) {
+				if d > 0 {
+					time.Sleep(d)
+				}
+			}})
 		}
-		b.stop(t)
+		synctest.Wait()
+		ctx, cancel := context.WithTimeout(context.Background(), time.Hour)
+		defer cancel()
+		settle := func() []sess.Event {
+			// answers that arrive after the call has returned belong to this call as well
+			time.Sleep(10 * time.Second)
+			synctest.Wait()
+			return wd.TakeLog()
+		}
+		if len(avails) == 1 {
+			h, err := wd.Ex.Head(ctx)
+			out = append(out, res{"head", chain[top-1], h, err, settle()})
+		}
+		low := uint64(0)
+		if len(avails) > 1 {
+			low = top
+			for _, a := range avails {
+				low = min(low, a)
+			}
+		}
+		for k := 0; k < 4; k++ {
+			// a header above the shortest store (only some servers hold it), or anywhere for one server
+			x := chain[low+uint64(rng.Intn(int(top-low)))]
+			h, err := wd.Ex.GetByHeight(ctx, x.H)
+			out = append(out, res{"getbyheight", x, h, err, settle()})
+			h, err = wd.Ex.Get(ctx, x.Hash())
+			out = append(out, res{"get", x, h, err, settle()})
+		}
+		for _, b := range bs {
+			b.stop(t)
+		}
 		wd.Close()
 	})
 	for _, r := range out {
@@ -317,15 +349,28 @@ func runOne(t *testing.T, w *emit.Writer, reg *vhdr.Registry, chain []H, avail u
 		if r.err == nil && r.got != nil {
 			got = emit.Some(reg.Term(r.got))
 		}
-		var fs []string
+		var answers []string
+		order := ""
 		for _, e := range r.log {
+			var fs []string
 			for _, f := range e.Frames {
 				fs = append(fs, sess.FrameTerm(reg, f))
 			}
+			answers = append(answers, emit.List(fs))
+			switch {
+			case len(e.Frames) == 1 && e.Frames[0].Kind == sess.FHdr:
+				order += "H"
+			case len(e.Frames) == 1 && e.Frames[0].Kind == sess.FNotFound:
+				order += "N"
+			default:
+				order += "?"
+			}
 		}
-		term := fmt.Sprintf("(One18 (Some %d) %s %s %s)", reg.ChainNo("a"), reg.Term(r.served), emit.List(fs), got)
-		w.Add(term, map[string]any{"op": r.kind, "height": r.served.H, "err": fmt.Sprint(r.err)}, "one/"+r.kind, true)
+		term := fmt.Sprintf("(One18 (Some %d) %s %s %s)", reg.ChainNo("a"), reg.Term(r.served), emit.List(answers), got)
+		w.Add(term, map[string]any{"op": r.kind, "height": r.served.H, "heads": avails, "arrival": order, "err": fmt.Sprint(r.err)},
+			fmt.Sprintf("one/%s/%d/%s", r.kind, len(avails), order), len(avails) > 1)
 		w.Count("one", r.kind)
+		w.Count("one_arrival_order", order)
 	}
 }
 
@@ -449,8 +494,17 @@ func TestC18(t *testing.T) {
 		runRange(t, w, reg, chain, sc, drift)
 	}
 	for _, a := range []uint64{1, 2, 17, 100} {
-		runOne(t, w, reg, chain, a, rng)
+		runOne(t, w, reg, chain, []uint64{a}, []time.Duration{0}, rng)
 	}
+	// several trusted servers with different heads: the lagging one answers NOT_FOUND first, last, or in between
+	sec := time.Second
+	runOne(t, w, reg, chain, []uint64{5, 40}, []time.Duration{0, sec}, rng)
+	runOne(t, w, reg, chain, []uint64{40, 5}, []time.Duration{sec, 0}, rng)
+	runOne(t, w, reg, chain, []uint64{5, 40}, []time.Duration{sec, 0}, rng)
+	runOne(t, w, reg, chain, []uint64{5, 40}, []time.Duration{0, 0}, rng)
+	runOne(t, w, reg, chain, []uint64{5, 9, 60}, []time.Duration{0, sec / 2, sec}, rng)
+	runOne(t, w, reg, chain, []uint64{60, 5, 9}, []time.Duration{sec, 0, sec / 2}, rng)
+	runOne(t, w, reg, chain, []uint64{9, 60, 60}, []time.Duration{0, 2 * sec, sec}, rng)
 	if err := w.Flush(); err != nil {
 		t.Fatal(err)
 	}
